@@ -80,7 +80,7 @@ var jsonPool = []string{`null`, `true`, `false`, `0`, `1`, `-1`, `2147483647`, `
 
 func genCase(seed int64, idx int) Case {
 	r := hx.NewRand(uint64(seed)*1000003 + uint64(idx)*7919 + 17)
-	c := Case{Idx: idx, WorldSeed: r.Uint64(), Mode: r.Intn(3), Async: r.Chance(1, 3), MaxCost: hx.Pick(r, []int{-1, -1, 0, 5, 1000, 1 << 62})}
+	c := Case{Idx: idx, WorldSeed: r.Uint64(), Mode: r.Intn(4), Async: r.Chance(1, 3), MaxCost: hx.Pick(r, []int{-1, -1, 0, 5, 1000, 1 << 62})}
 	c.Entry = hx.Pick(r, []string{"execute", "execute", "execute", "execute", "pv", "subscribe", "http-get", "http-post", "http-graphql"})
 	q := hx.Pick(r, seedQueries)
 	k := r.Intn(100)
